@@ -3,6 +3,7 @@ package main
 import (
 	"go/ast"
 	"go/token"
+	"go/types"
 	"sort"
 	"strings"
 
@@ -600,7 +601,8 @@ func c03Publisher(c *Ctx, sign *Fn) {
 	}
 	// the bytes written in the head branch
 	n := 0
-	for _, cs := range c.Calls(pub.SSA, Invoke("http.ResponseWriter.Write")) {
+	for _, st := range c.CallsInl(pub.SSA, Invoke("http.ResponseWriter.Write"), 2) {
+		cs := st.CallSite
 		data := cs.X.Args[1]
 		b, ok := Match(Extract("0", BindP("enc", Op("call", "", Bind("root"), Field("topic", Any()), Field("privKey", Any())))), data)
 		if !ok {
@@ -629,19 +631,28 @@ func c03Publisher(c *Ctx, sign *Fn) {
 	if n == 0 {
 		c.Bad("C03.V5-publisher-signs-root", pub.Name+" › head response", pub.SSA.Pos(), "no response write of an encoded signed head found in the publisher")
 	}
-	// root read under lock (lockset)
+	// every access to the publisher's root is made with its lock held (lockset)
 	la := c.LockAnalyses(ipnisyncPkg, nil)
-	for _, a := range la[pub.Name] {
-		ownInspect(a.Body, func(nd ast.Node) bool {
-			sel, ok := nd.(*ast.SelectorExpr)
-			if !ok || sel.Sel.Name != "root" {
+	rootVar := c.fieldVar(ipnisyncPkg, "Publisher.root")
+	pk := c.pkg(ipnisyncPkg)
+	nRoot := 0
+	for _, f := range c.Funcs(ipnisyncPkg) {
+		for _, a := range la[f.Name] {
+			ownInspect(a.Body, func(nd ast.Node) bool {
+				sel, ok := nd.(*ast.SelectorExpr)
+				if !ok || rootVar == nil || pk.TypesInfo.ObjectOf(sel.Sel) != types.Object(rootVar) {
+					return true
+				}
+				nRoot++
+				if h, ok := a.HeldAt[sel]; ok {
+					c.Check(heldHas(h, ".lock"), "C03.V5-publisher-signs-root", a.Name+" › root accessed under lock", sel.Pos(), "root accessed with the publisher's lock held", "root accessed without the publisher's lock")
+				}
 				return true
-			}
-			if h, ok := a.HeldAt[sel]; ok {
-				c.Check(heldHas(h, ".lock"), "C03.V5-publisher-signs-root", pub.Name+" › root read under lock", sel.Pos(), "root read with the publisher's lock held", "root read without the lock that SetRoot takes")
-			}
-			return true
-		})
+			})
+		}
+	}
+	if rootVar == nil {
+		c.Note("V5: Publisher.root not found by name; lock discipline of the root not checked")
 	}
 	// NewSignedHead returns a head only when Sign succeeded
 	nsh := c.Func(headPkg, "NewSignedHead")
